@@ -146,7 +146,10 @@ TEXT = {
         "text": "A small-step machine of send/cancel/receiveLoop with an invariant proved for ALL event sequences (any number of callers and datagrams): received datagrams carry the call's id and "
                 "were routed while it waited, arrival order is preserved, filtered/unsolicited datagrams change nothing, a pending id is refused, a channel is closed only for a cancelling call "
                 "(the F8 invariant; refuted for the pinned cancel by vm_compute on the 5-event schedule). The macro driver compared with both real clients is proved to be a refinement of the "
-                "micro machine; the F8 schedule is forced on the real code through build-tag hooks.",
+                "micro machine; the F8 schedule is forced on the real code through build-tag hooks. C10_no_solicited_loss: in the hand-over machine with the 5-slot channel and the blocking "
+                "send made explicit, after ANY event sequence the datagrams read for a waiting call are exactly those received, then queued, then held by the blocked loop (nothing dropped, "
+                "duplicated or reordered); the held-matcher scenarios (all n <= 7, every first-acceptable position) are run on both clients and compared with that machine; "
+                "simultaneous callers reusing one id are stress-run (exactly one admitted).",
         "note": COMMON_NOTE + "Data races are not expressible in an atomic-step model (harness under -race in the thorough tier only). verif hooks are trusted to be no-ops without the tag.",
         "technique": "Coq proof (inductive invariant over all interleavings, refinement macro->micro) + synctest macro-step harness + hook-forced micro schedule",
     },
